@@ -615,7 +615,8 @@ theorem watchFrom_spec (script : List (List Ans)) (i : Nat) :
 /-- **the watch loop closes a session as executed only at the first tick at which EVERY member of its batch is
     reported executed**, for every batch size and every sequence of per-tick answer vectors (answers may change
     between ticks; lookup errors count as not executed) -/
-theorem allExecAt_closedOk (script : List (List Ans)) (t : Nat) (h : AllExecAt script t) : ClosedOk script t := by
+theorem allExecAt_closedOk (script : List (List Ans)) (t : Nat) (askedAt : List Nat) (h : AllExecAt script t) :
+    ClosedOk script t askedAt := by
   unfold AllExecAt at h
   unfold ClosedOk
   cases hv : script[t]? with
@@ -627,14 +628,14 @@ theorem allExecAt_closedOk (script : List (List Ans)) (t : Nat) (h : AllExecAt s
     rw [List.getElem?_eq_getElem hj]
     exact congrArg some (h _ (List.getElem_mem hj))
 
-theorem watch_PWatch (script : List (List Ans)) : PWatch script (watch script) := by
+theorem watch_PWatch (script : List (List Ans)) (askedAt : List Nat) : PWatch script (watch script) askedAt := by
   have := watchFrom_spec script 0
   unfold PWatch watch
   split at this
   · next t heq =>
     rw [heq]
     have h2 : AllExecAt script t ∧ ∀ k, k < t → ¬ AllExecAt script k := by simpa using this.2
-    exact ⟨allExecAt_closedOk script t h2.1, h2.2⟩
+    exact ⟨allExecAt_closedOk script t askedAt h2.1, h2.2⟩
   · next heq => rw [heq]; exact this
 
 /-- the model (the code as it is) closes only when all members are reported executed at the SAME tick -/
@@ -672,7 +673,7 @@ theorem submitAfterTicks_is_signed (script : List (List Ans)) (signed : List Nat
 theorem firstOnly_drops_pending :
     let firstOnly : List Ans → Bool := fun v => v.head? = some .exec
     firstOnly [.exec, .notExec] = true ∧ ¬ PTick [.exec, .notExec] (firstOnly [.exec, .notExec]) ∧
-    ¬ PWatch [[.exec, .notExec]] (some 0) := by decide
+    ¬ PWatch [[.exec, .notExec]] (some 0) [0] := by decide
 
 example : watch [[.exec, .notExec], [.exec, .err], [.exec, .exec]] = some 2 ∧
     sweeps [[.exec, .notExec], [.exec, .err], [.exec, .exec]] = [[0, 1], [0, 1], [0, 1]] ∧
@@ -784,6 +785,159 @@ theorem histbtc_P03 (res : Nat → Nat) (m : List (Nat × Status)) (ops : List B
       intro x hx
       simp only [runBtc] at hx
       exact ih _ x hx
+
+/-! #### Bitcoin, history level: executed is never selected again; failed is selected by the next delivery -/
+
+theorem storeStatus_lookup (s : Store) (ns : List Nat) (v : Status) (j : Nat) :
+    lookup (storeStatus s ns v).m j = lookup s.m j ∨ (j ∈ ns ∧ lookup (storeStatus s ns v).m j = v) := by
+  induction ns generalizing s with
+  | nil => simp [storeStatus]
+  | cons n r ih =>
+    have hstep : storeStatus s (n :: r) v = storeStatus (s.write n v).2 r v := by simp [storeStatus]
+    rw [hstep]
+    obtain ⟨m, fs⟩ := s
+    have hw : ∀ j, lookup (Store.write ⟨m, fs⟩ n v).2.m j = lookup m j ∨
+        (j = n ∧ lookup (Store.write ⟨m, fs⟩ n v).2.m j = v) := by
+      intro j
+      rcases fs with _ | ⟨f, fr⟩
+      · by_cases hj : n = j
+        · right; subst hj; simp [lookup_cons]
+        · left; simp [lookup_cons, hj]
+      · cases f
+        · by_cases hj : n = j
+          · right; subst hj; simp [lookup_cons]
+          · left; simp [lookup_cons, hj]
+        · left; simp
+    rcases ih (Store.write ⟨m, fs⟩ n v).2 with h | ⟨h1, h2⟩
+    · rcases hw j with h' | ⟨hj, h'⟩
+      · left; rw [h, h']
+      · right; exact ⟨by simp [hj], by rw [h, h']⟩
+    · right; exact ⟨List.mem_cons_of_mem _ h1, h2⟩
+
+/-- without a store fault the recorded outcome is there afterwards -/
+theorem storeStatus_nofault (m : List (Nat × Status)) (ns : List Nat) (v : Status) (k : Nat) (hk : k ∈ ns) :
+    lookup (storeStatus ⟨m, []⟩ ns v).m k = v := by
+  induction ns generalizing m with
+  | nil => cases hk
+  | cons n r ih =>
+    have hstep : storeStatus ⟨m, []⟩ (n :: r) v = storeStatus ⟨(n, v) :: m, []⟩ r v := by simp [storeStatus]
+    rw [hstep]
+    by_cases hkr : k ∈ r
+    · exact ih _ hkr
+    · have hkn : k = n := by
+        rcases List.mem_cons.1 hk with h | h
+        · exact h
+        · exact absurd h hkr
+      rcases storeStatus_lookup ⟨(n, v) :: m, []⟩ r v k with h | ⟨h, _⟩
+      · rw [h, hkn]; simp [lookup_cons]
+      · exact absurd h hkr
+
+/-- a delivery does not touch the record of a proposal it does not contain -/
+theorem forExec_other (s : Store) (d : List Nat) (k : Nat) (hk : k ∉ d) :
+    lookup (forExec s d).2.m k = lookup s.m k := by
+  induction d generalizing s with
+  | nil => simp [forExec]
+  | cons n r ih =>
+    have hn : ¬ n = k := fun e => hk (e ▸ List.mem_cons_self ..)
+    have hr : k ∉ r := fun h => hk (List.mem_cons_of_mem _ h)
+    obtain ⟨m, fs⟩ := s
+    rcases fs with _ | ⟨f, _ | ⟨f2, fr⟩⟩ <;> (try cases f) <;> (try cases f2) <;>
+      by_cases hc : canExec (lookup m n) = true <;>
+      simp [forExec, hc, ih _ hr, lookup_cons, hn]
+
+theorem btc_other (res : Nat → Nat) (s : Store) (d : List Nat) (k : Nat) (hk : k ∉ d) :
+    lookup (btc res s d).2.m k = lookup s.m k := by
+  have key := forExec_other s d k hk
+  unfold btc
+  by_cases hd : d = []
+  · simp [hd]
+  · simp only [hd, if_false]
+    rcases hfe : forExec s d with ⟨o, s'⟩
+    rw [hfe] at key
+    rcases o with _ | ns
+    · exact key
+    · cases ns <;> exact key
+
+/-- **executed is never signed again (Bitcoin, history level).** From a state in which record `k` is executed, along
+    every history of deliveries, time-outs and outcome recordings of OTHER proposals (any faults), no delivery ever puts
+    `k` into a session, and the record stays executed. -/
+theorem btc_executed_never_selected_again (res : Nat → Nat) (m : List (Nat × Status)) (ops : List BOp) (k : Nat)
+    (hk : lookup m k = .executed) (hq : ∀ op ∈ ops, BOp.noOutcomeFor k op = true) :
+    (∀ r ∈ (runBtc res m ops).1, k ∉ r.2.2.sessions.flatten) ∧ lookup (runBtc res m ops).2 k = .executed := by
+  induction ops generalizing m with
+  | nil => simp [runBtc, hk]
+  | cons op r ih =>
+    have hq' : ∀ op ∈ r, BOp.noOutcomeFor k op = true := fun o ho => hq o (List.mem_cons_of_mem _ ho)
+    cases op with
+    | deliver ns f =>
+      have hkeep := btc_keeps_executed res ⟨m, f⟩ ns k (Or.inl hk)
+      have := ih (btc res ⟨m, f⟩ ns).2.m (by rw [hkeep]; exact hk) hq'
+      simp only [runBtc]
+      refine ⟨?_, this.2⟩
+      intro x hx
+      rcases List.mem_cons.1 hx with rfl | hx
+      · intro hmem
+        have hp := btc_P03 res ⟨m, f⟩ ns
+        have := signed_is_wanted _ _ _ hp k hmem
+        rw [mem_executable] at this
+        simp [hk, canExec] at this
+      · exact this.1 x hx
+    | outcome ok ns f =>
+      have hno : k ∉ ns := by
+        have := hq (.outcome ok ns f) (List.mem_cons_self ..)
+        simpa [BOp.noOutcomeFor] using this
+      have hkeep : lookup (storeStatus ⟨m, f⟩ ns (if ok then .executed else .failed)).m k = .executed := by
+        rcases storeStatus_lookup ⟨m, f⟩ ns (if ok then .executed else .failed) k with h | ⟨h, _⟩
+        · rw [h]; exact hk
+        · exact absurd h hno
+      simpa [runBtc] using ih _ hkeep hq'
+    | timeout ns => simpa [runBtc] using ih m hk hq'
+
+/-- … in particular after its execution was recorded successfully (`outcome true`, the write not failing) -/
+theorem btc_after_success_never_again (res : Nat → Nat) (m : List (Nat × Status)) (ns : List Nat) (post : List BOp)
+    (k : Nat) (hk : k ∈ ns) (hq : ∀ op ∈ post, BOp.noOutcomeFor k op = true) :
+    ∀ r ∈ (runBtc res m (.outcome true ns [] :: post)).1, k ∉ r.2.2.sessions.flatten := by
+  have h := storeStatus_nofault m ns .executed k hk
+  simpa [runBtc] using (btc_executed_never_selected_again res _ post k h hq).1
+
+/-- **dually: a recorded failure releases the proposal.** After `outcome false` (the write not failing), through any
+    operations that do not concern `k`, the next delivery that contains `k` and meets no store fault signs it. -/
+theorem btc_after_failure_selected_next (res : Nat → Nat) (m : List (Nat × Status)) (ns : List Nat)
+    (quiet : List BOp) (d : List Nat) (f : List Bool) (k : Nat) (hk : k ∈ ns)
+    (hquiet : ∀ op ∈ quiet, BOp.quietFor k op = true) (hd : k ∈ d)
+    (hf : faulted ⟨(runBtc res m (.outcome false ns [] :: quiet)).2, f⟩ d = false) :
+    k ∈ (btc res ⟨(runBtc res m (.outcome false ns [] :: quiet)).2, f⟩ d).1.sessions.flatten := by
+  have h0 := storeStatus_nofault m ns .failed k hk
+  have hkeep : ∀ (m' : List (Nat × Status)) (q : List BOp), lookup m' k = .failed →
+      (∀ op ∈ q, BOp.quietFor k op = true) → lookup (runBtc res m' q).2 k = .failed := by
+    intro m' q
+    induction q generalizing m' with
+    | nil => intro h _; simpa [runBtc] using h
+    | cons op r ih =>
+      intro h hq
+      have hq' : ∀ op ∈ r, BOp.quietFor k op = true := fun o ho => hq o (List.mem_cons_of_mem _ ho)
+      have hop := hq op (List.mem_cons_self ..)
+      cases op with
+      | deliver ns' f' =>
+        have hno : k ∉ ns' := by simpa [BOp.quietFor] using hop
+        have := btc_other res ⟨m', f'⟩ ns' k hno
+        simpa [runBtc] using ih _ (by rw [this]; exact h) hq'
+      | outcome ok ns' f' =>
+        have hno : k ∉ ns' := by simpa [BOp.quietFor] using hop
+        have hk' : lookup (storeStatus ⟨m', f'⟩ ns' (if ok then .executed else .failed)).m k = .failed := by
+          rcases storeStatus_lookup ⟨m', f'⟩ ns' (if ok then .executed else .failed) k with h' | ⟨h', _⟩
+          · rw [h']; exact h
+          · exact absurd h' hno
+        simpa [runBtc] using ih _ hk' hq'
+      | timeout ns' => simpa [runBtc] using ih m' h hq'
+  have hfail : lookup (runBtc res m (.outcome false ns [] :: quiet)).2 k = .failed := by
+    simpa [runBtc] using hkeep _ quiet h0 hquiet
+  rw [btc_signed_iff res _ d hf k]
+  exact ⟨hd, Or.inr hfail⟩
+
+/-- non-vacuity: 0 recorded executed is never signed again, 1 recorded failed is signed by the next delivery -/
+example : (runBtc (· % 2) [] [.deliver [0, 1] [], .outcome true [0] [], .outcome false [1] [], .timeout [0],
+      .deliver [0, 1] []]).1.map (·.2.2.sessions) = [[[0], [1]], [[1]]] := by decide
 
 /-- the defect repaired by `fix:` 986f0b8, kept as a witness: the as-found Substrate loop signs an executed proposal -/
 theorem subAsFound_violates : ∃ d, ¬ P03 (hasErr d) (wanted d) (subAsFound d).sessions :=
